@@ -1,5 +1,204 @@
-import Plonk.Model.Composer
+/-
+  Property C09 — the range check accepts exactly the interval `[0, 2^BITS)`.
+
+  Conventions.  `c` is the composer state before the call, `c' := ((rangeCheck x bits).run c).2`
+  the state after it (`componentRangeBits bits x` *is* `rangeCheck x bits`), `w : Nat → Nat` an
+  arbitrary assignment of values to witness indices (everything a prover may choose, including
+  all accumulators), `c''.rowsHoldW w c.gates.size c'.gates.size` says that the rows appended by
+  the call hold under `w` (read in `c'` itself or in any later state `c''`), and
+  `toF : Nat → F = ZMod R` interprets values in the scalar field.
+
+  Everything is proved at full strength, for even and odd widths and width 0; there is no
+  `_partial` theorem.
+
+  Forced hypotheses (findings; none of them is a defect of the Rust code):
+    * `PiFresh c` (no public input is recorded for a row index that does not exist yet): it is
+      the `pis_zero` component of `Composer.WF` of C08, an invariant of every state reachable
+      from `initialized` (`piFresh_initialized`, preserved: `rangeCheck_extends`).  Without it a
+      stale sparse public input would leak into the fresh rows.
+    * `toF (w 0) = 0`: the padding slots of the first range row are wired to the constant-zero
+      witness (index 0); its value is pinned by row 0 of `Composer::initialized()`, not by the
+      component.  If witness 0 were free the check would accept values up to `4^numQuads`.
+    * completeness: `x < c.wit.size` (the witness was allocated) and `c.val 0 = 0`.
+      The bounds "witness values `< R`" and `bits ≤ 256` of the informal statement are *not*
+      needed: completeness holds for every width.
+    * `range_exact`: `x = 0 → v = 0` (range-checking the zero witness itself is satisfiable for the
+      value 0 only) and `v < R` (`v` is a canonical value).
+  Remark on widths 255 and 256 (`range_255_256_trivial`): every canonical value is accepted, so
+  the component constrains nothing; soundness is only claimed up to 254 (`2^254 < R < 2^255`).
+-/
+import Plonk.Proofs.Range
 namespace Plonk.Props.C09
-open Plonk
-theorem placeholder_bounds : Generated.RANGE_MAX_BITS = 256 ∧ Generated.LOGIC_MAX_PAIRS = 127 ∧ Generated.TRUNCATE_MAX_BITS = 254 ∧ Generated.SPLIT_TOTAL_BITS = 255 := by decide
+open Plonk Plonk.Composer
+
+/-! ## what is appended -/
+
+/-- `range_check` only appends: `c'` extends `c`; the number of gates and witnesses appended is a
+    function of the width alone; no public input is added; the last appended gate is plain (it
+    reads no next-row wire, so whatever is appended later does not disturb the component); the
+    invariant `PiFresh` is preserved.
+
+    Counts: even `bits > 0`: `⌈bits/8⌉ + 2` gates, `bits/2` witnesses; `bits = 0`: one gate;
+    odd `bits`: those of `bits − 1`, plus 3 gates and 3 witnesses. -/
+theorem rangeCheck_extends (c : Composer) (x bits : Nat) :
+    Extends c ((rangeCheck x bits).run c).2 ∧
+    ((rangeCheck x bits).run c).2.gates.size = c.gates.size + rangeGateCount bits ∧
+    ((rangeCheck x bits).run c).2.wit.size = c.wit.size + rangeWitCount bits ∧
+    ((rangeCheck x bits).run c).2.pis = c.pis ∧
+    (∀ i, i + 1 = ((rangeCheck x bits).run c).2.gates.size →
+      Gate.plain (((rangeCheck x bits).run c).2.gateAt i)) ∧
+    (PiFresh c → PiFresh ((rangeCheck x bits).run c).2) :=
+  ⟨Composer.rangeCheck_extends c x bits, rangeCheck_gates_size c x bits,
+    rangeCheck_wit_size c x bits, rangeCheck_pis c x bits, rangeCheck_last_plain c x bits,
+    rangeCheck_piFresh c x bits⟩
+
+/-- the counts, in closed form -/
+theorem rangeCheck_counts (bits : Nat) :
+    rangeGateCount bits =
+      (if bits % 2 = 0 then (if bits = 0 then 1 else (bits + 7) / 8 + 2)
+       else (if bits = 1 then 1 else (bits + 6) / 8 + 2) + 3) ∧
+    rangeWitCount bits = (if bits % 2 = 0 then bits / 2 else (bits - 1) / 2 + 3) := by
+  unfold rangeGateCount rangeWitCount evenGateCount
+  refine ⟨?_, rfl⟩
+  split
+  · rfl
+  · next h =>
+    have e1 : (bits - 1 = 0) = (bits = 1) := by apply propext; omega
+    have e2 : (bits - 1 + 7) / 8 = (bits + 6) / 8 := by congr 1; omega
+    simp only [e1, e2]
+
+/-- non-vacuity: a 64-bit check costs 10 gates and 32 witnesses, a 7-bit check 6 and 6;
+    `initialized` satisfies the invariant -/
+example : rangeGateCount 64 = 10 ∧ rangeWitCount 64 = 32 ∧ rangeGateCount 7 = 6 ∧
+    rangeWitCount 7 = 6 ∧ PiFresh initialized :=
+  ⟨by decide, by decide, by decide, by decide, piFresh_initialized⟩
+
+/-! ## soundness -/
+
+/-- **Soundness.**  For every width `bits ≤ 254` (even or odd, or 0) and *every* assignment `w`
+    (all accumulator choices) with the zero witness equal to 0: if the rows appended by
+    `range_check` hold under `w` — read in `c'` or in any later state `c''` — then the canonical
+    value of witness `x` is below `2^bits`. -/
+theorem rangeCheck_sound (c : Composer) (x bits : Nat) (hbits : bits ≤ 254) (hpi : PiFresh c)
+    (c'' : Composer) (hext : Extends ((rangeCheck x bits).run c).2 c'')
+    (w : Nat → Nat) (h0 : toF (w 0) = 0)
+    (hrows : c''.rowsHoldW w c.gates.size ((rangeCheck x bits).run c).2.gates.size) :
+    (toF (w x)).val < 2 ^ bits :=
+  rangeCheck_sound_ext c x bits hbits hpi c'' hext w h0 hrows
+
+/-- width 0 forces the value 0 -/
+theorem rangeCheck_sound_zero (c : Composer) (x : Nat) (hpi : PiFresh c)
+    (c'' : Composer) (hext : Extends ((rangeCheck x 0).run c).2 c'')
+    (w : Nat → Nat) (h0 : toF (w 0) = 0)
+    (hrows : c''.rowsHoldW w c.gates.size ((rangeCheck x 0).run c).2.gates.size) :
+    toF (w x) = 0 := by
+  have := rangeCheck_sound_ext c x 0 (by norm_num) hpi c'' hext w h0 hrows
+  exact (ZMod.val_eq_zero _).mp (by omega)
+
+/-! ## completeness -/
+
+/-- **Completeness.**  If witness `x` was allocated, the zero witness holds 0 and the value of
+    `x` is below `2^bits` (any width), the model's own witness table satisfies the appended rows —
+    read in `c'` or in any later state `c''`. -/
+theorem rangeCheck_complete (c : Composer) (x bits : Nat) (hpi : PiFresh c)
+    (hx : x < c.wit.size) (hz : c.val 0 = 0) (hv : c.val x < 2 ^ bits)
+    (c'' : Composer) (hext : Extends ((rangeCheck x bits).run c).2 c'') :
+    c''.rowsHoldW c''.val c.gates.size ((rangeCheck x bits).run c).2.gates.size :=
+  rangeCheck_complete_ext c x bits hpi hx hz hv c'' hext
+
+/-- non-vacuity of soundness and completeness together, odd width: on `initialized`, witness 2
+    holds 6; a 3-bit check of it is satisfied by the model's table, and soundness applied to that
+    table yields `6 < 2^3`. -/
+example : (toF (((rangeCheck 2 3).run initialized).2.val 2)).val < 2 ^ 3 :=
+  rangeCheck_sound initialized 2 3 (by norm_num) piFresh_initialized _ (Extends.refl _) _
+    (by decide +kernel)
+    (rangeCheck_complete initialized 2 3 piFresh_initialized (by decide) (by decide) (by decide)
+      _ (Extends.refl _))
+
+/-- non-vacuity, even width: witness 4 of `initialized` holds 7 `< 2^4`. -/
+example : (toF (((rangeCheck 4 4).run initialized).2.val 4)).val < 2 ^ 4 :=
+  rangeCheck_sound initialized 4 4 (by norm_num) piFresh_initialized _ (Extends.refl _) _
+    (by decide +kernel)
+    (rangeCheck_complete initialized 4 4 piFresh_initialized (by decide) (by decide) (by decide)
+      _ (Extends.refl _))
+
+/-! ## the property -/
+
+/-- **C09, bit-counted entry point.**  For every width `bits ≤ 254` and every canonical value
+    `v`, the rows appended by `component_range_bits::<bits>(x)` are satisfiable by an assignment
+    giving `x` the value `v` (and the zero witness the value 0) exactly when `v < 2^bits`. -/
+theorem range_exact (c : Composer) (x bits v : Nat) (hbits : bits ≤ 254) (hpi : PiFresh c)
+    (hx : x < c.wit.size) (hx0 : x = 0 → v = 0) (hv : v < R) :
+    (∃ w : Nat → Nat, w x = v ∧ w 0 = 0 ∧
+        ((componentRangeBits bits x).run c).2.rowsHoldW w c.gates.size
+          ((componentRangeBits bits x).run c).2.gates.size)
+      ↔ v < 2 ^ bits :=
+  range_exact_core c x bits v hbits hpi hx hx0 hv
+
+/-- **C09, deprecated bit-pair-counted entry point**: `component_range::<p>(x)`, `p ≤ 127`,
+    accepts exactly `[0, 4^p)`. -/
+theorem range_exact_pairs (c : Composer) (x p v : Nat) (hp : p ≤ 127) (hpi : PiFresh c)
+    (hx : x < c.wit.size) (hx0 : x = 0 → v = 0) (hv : v < R) :
+    (∃ w : Nat → Nat, w x = v ∧ w 0 = 0 ∧
+        ((componentRange p x).run c).2.rowsHoldW w c.gates.size
+          ((componentRange p x).run c).2.gates.size)
+      ↔ v < 2 ^ (2 * p) := by
+  rw [componentRange_eq_bits p x (by omega)]
+  exact range_exact_core c x (2 * p) v (by omega) hpi hx hx0 hv
+
+/-- non-vacuity: both sides of the equivalence occur — on `initialized` with `x = 2`, the value 5
+    is accepted by a 3-bit check and the value 9 is not. -/
+example :
+    (∃ w : Nat → Nat, w 2 = 5 ∧ w 0 = 0 ∧
+      ((componentRangeBits 3 2).run initialized).2.rowsHoldW w initialized.gates.size
+        ((componentRangeBits 3 2).run initialized).2.gates.size) ∧
+    ¬ (∃ w : Nat → Nat, w 2 = 9 ∧ w 0 = 0 ∧
+      ((componentRangeBits 3 2).run initialized).2.rowsHoldW w initialized.gates.size
+        ((componentRangeBits 3 2).run initialized).2.gates.size) := by
+  constructor
+  · exact (range_exact initialized 2 3 5 (by norm_num) piFresh_initialized (by decide)
+      (by decide) (by decide +kernel)).mpr (by norm_num)
+  · rw [range_exact initialized 2 3 9 (by norm_num) piFresh_initialized (by decide)
+      (by decide) (by decide +kernel)]
+    norm_num
+
+/-! ## the two entry points -/
+
+/-- Both entry points are the same state transformer for equal widths: `component_range::<p>`
+    is `component_range_bits::<2p>` for `p ≤ 128` (in particular they emit identical gates and
+    allocate identical witnesses), and clamps to width 256 beyond
+    (`Generated.RANGE_PAIRS_CLAMP_BITS = 256`). -/
+theorem entry_points_agree (p x : Nat) :
+    (p ≤ 128 → componentRange p x = componentRangeBits (2 * p) x) ∧
+    (128 < p → componentRange p x = componentRangeBits 256 x) :=
+  ⟨componentRange_eq_bits p x, componentRange_eq_clamp p x⟩
+
+example : componentRange 32 7 = componentRangeBits 64 7 := (entry_points_agree 32 7).1 (by norm_num)
+example : componentRange 200 7 = componentRangeBits 256 7 := (entry_points_agree 200 7).2 (by norm_num)
+
+/-! ## widths 255 and 256 constrain nothing -/
+
+/-- For `bits ∈ {255, 256}` *every* canonical value `v < R` of witness `x` is accepted: there is
+    a satisfying assignment giving `x` the value `v`, and (`rangeCheck_complete`) the model's own
+    table satisfies the rows whatever the value of `x` is.  So these widths constrain nothing —
+    as documented; in particular they do **not** bound the value by `2^255`/`2^256` in any useful
+    sense, and the deprecated `component_range::<p>` with `p ≥ 128` is equally vacuous. -/
+theorem range_255_256_trivial (c : Composer) (x bits v : Nat) (hbits : bits = 255 ∨ bits = 256)
+    (hpi : PiFresh c) (hx : x < c.wit.size) (hx0 : x = 0 → v = 0) (hv : v < R) :
+    ∃ w : Nat → Nat, w x = v ∧ w 0 = 0 ∧
+      ((componentRangeBits bits x).run c).2.rowsHoldW w c.gates.size
+        ((componentRangeBits bits x).run c).2.gates.size := by
+  refine range_exists_core c x bits v hpi hx hx0 ?_
+  have h1 := R_lt_two_pow_255
+  have h2 : 2 ^ 255 ≤ 2 ^ bits := Nat.pow_le_pow_right (by norm_num) (by omega)
+  omega
+
+/-- non-vacuity: the largest canonical value `R − 1` passes a 255-bit and a 256-bit check -/
+example (bits : Nat) (hbits : bits = 255 ∨ bits = 256) :
+    ∃ w : Nat → Nat, w 2 = R - 1 ∧ w 0 = 0 ∧
+      ((componentRangeBits bits 2).run initialized).2.rowsHoldW w initialized.gates.size
+        ((componentRangeBits bits 2).run initialized).2.gates.size :=
+  range_255_256_trivial initialized 2 bits (R - 1) hbits piFresh_initialized (by decide)
+    (by decide) (by decide +kernel)
+
 end Plonk.Props.C09
